@@ -33,7 +33,7 @@ def evaluate(pid, sources=None, overrides=None, tier="quick", seed=0):
             raise AnalysisError(f"only {len(prog.modules)} units parsed under {prog.root}/ixai (expected >= 40)")
         run = Run(pid, prog, tier, seed)
         mod.check(run)
-        for rule, minimum in getattr(mod, "MIN_INSTANCES", {}).items():
+        for rule, minimum in ({} if run.findings else getattr(mod, "MIN_INSTANCES", {})).items():
             got = len(run.rule_instances.get(rule, ()))
             if got < minimum:
                 raise AnalysisError(f"rule {rule} matched {got} instances, confirmed minimum is {minimum} "
@@ -75,12 +75,14 @@ def witness_corpus(pid, sources, jobs=16):
         for w in lst:
             name, edits = w[0], w[1]
             overrides, applicable = {}, True
-            for path, old, new in edits:
+            for edit in edits:
+                path, old, new = edit[:3]
                 text = overrides.get(path, sources.get(path))
                 if text is None or text.count(old) < 1:
                     applicable = False
                     break
-                overrides[path] = text.replace(old, new, 1)
+                overrides[path] = text.replace(old, new) if len(edit) > 3 and edit[3] == "all" \
+                    else text.replace(old, new, 1)
             if not applicable:
                 skipped.append(f"{kind}:{name}")
                 continue
@@ -149,10 +151,11 @@ def main(argv=None):
               f"rules={','.join(sorted(run.rule_instances))}")
         for f, entry in known:
             print(f"KNOWN-FINDING: property={pid} {entry.get('what', f.message)} [{f.rule} {f.func} {f.where}]")
-        write_evidence(run, meta, timer.elapsed(), len(new), extra)
+        if not os.environ.get("IXAI_VERIF_NO_EVIDENCE"):
+            write_evidence(run, meta, timer.elapsed(), len(new), extra)
         if new:
             for i, f in enumerate(new, 1):
-                path = write_replay(f, i)
+                path = write_replay(f, i) if not os.environ.get("IXAI_VERIF_NO_EVIDENCE") else "(dry-run)"
                 print(f"VIOLATION property={pid} replay={path}")
                 print(f"  {f.where} in {f.func}: rule {f.rule} instance {f.instance}: {f.message}")
             return 1
